@@ -10,6 +10,11 @@ forces collisions, is rendered to a real source module, imported, and judged by 
   names, with the annotation / default of the signature that binds the name, required iff the interpreter requires
   it; a call with all offered parameters must succeed; parsing + instantiating through a parser must deliver the
   values to the binding levels; resolving the program again after another program must give the same answer.
+
+Statement forms added after the independent seeded defects (notes/C13.md §8): keyword hard-coded after the unpacking
+(`f(**kwargs, a=1)`), kwargs.pop/get written inline as an argument of the forwarding call (the sentinel is then traced
+by value: a lower level that sees it under another key was handed it, it does not bind the name), and class
+hierarchies with one class without __init__ at every position of every multiple-inheritance layout.
 """
 from __future__ import annotations
 
@@ -714,6 +719,12 @@ def _quick_depth3(root, links):
     return _at_most_one_branching(root, links) and not any(l in ("cc_elifnot", "cc_else") for l in links[1:])
 
 
+def _thorough_depth4(root, links):
+    """No runtime branch; elif-not / else placement of a constant conditional at the root level only (as _quick_depth3;
+    depth 3 of the thorough tier has every placement at every level)."""
+    return _no_branching(root, links) and not any(l in ("cc_elifnot", "cc_else") for l in links[1:])
+
+
 def families(tier):
     """The stated program space: a list of families, each enumerated completely.
 
@@ -732,11 +743,11 @@ def families(tier):
         dict(name="depth1", depths=[1], size="full", checks="full", same=True),
         dict(name="depth2", depths=[2], size="full", checks="full", same=True),
         dict(name="depth3", depths=[3], size="med", checks="resolve", same=True, link_filter=_at_most_one_branching),
-        dict(name="depth4", depths=[4], size="tiny", checks="resolve", same=False, link_filter=_no_branching),
+        dict(name="depth4", depths=[4], size="tiny", checks="resolve", same=False, link_filter=_thorough_depth4),
         dict(name="hierarchy4", depths=[4], size="small", checks="full", same=True, link_filter=_pure_hierarchy, rich=True),
         dict(name="hierarchy5", depths=[5], size="tiny4", checks="resolve", same=False, link_filter=_pure_hierarchy, rich=True),
         dict(name="hierarchy2+blank", depths=[2], size="mid", checks="full", same=True, link_filter=_pure_hierarchy, blank=True),
-        dict(name="hierarchy3+blank", depths=[3], size="small+", checks="resolve", same=False, link_filter=_pure_hierarchy, blank=True),
+        dict(name="hierarchy3+blank", depths=[3], size="small", checks="resolve", same=False, link_filter=_pure_hierarchy, blank=True),
         dict(name="hierarchy4+blank", depths=[4], size="tiny", checks="resolve", same=False, link_filter=_pure_hierarchy, blank=True),
     ]
 
